@@ -30,6 +30,13 @@ QUAD_WORST = {('backward', 2, 'min2'): 3.6e-07, ('backward', 2, 'min2b'): 2.0e-1
               ('forward', 4, 'min2'): 9.1e-10, ('forward', 4, 'min2b'): 5.3e-11, ('forward', 6, 'min2'): 4.6e-11,
               ('forward', 6, 'min2b'): 6.0e-11, ('multicomplex', 2, 'min2'): 1.0e-15, ('multicomplex', 2, 'min2b'): 1.0e-15}
 
+# worst |Hessian - exact| / scale on the unchanged tree with MinStepGenerator(base_step=0.01, step_ratio=2, num_steps=k), k = 2..5, smooth
+# family, 3600 cases; the envelope is 20 x these (the number of Richardson terms that k steps allow decides the order of accuracy)
+HESS_FEW_WORST = {('backward', 2): 1.3e-04, ('backward', 3): 2.5e-06, ('backward', 4): 2.0e-05, ('backward', 5): 6.9e-07,
+                  ('central', 2): 2.6e-09, ('central', 3): 3.2e-12, ('central', 4): 3.2e-12, ('central', 5): 2.4e-10,
+                  ('central2', 2): 4.8e-09, ('central2', 3): 1.2e-11, ('central2', 4): 1.2e-11, ('central2', 5): 7.2e-10,
+                  ('forward', 2): 1.4e-04, ('forward', 3): 2.8e-06, ('forward', 4): 2.2e-05, ('forward', 5): 9.1e-06}
+
 
 def run(ctx):
     import numdifftools as nd
@@ -211,6 +218,74 @@ def run(ctx):
                               envelope=100 * HESSDIAG_WORST[(meth, order)], a=a.tolist(), b=b.tolist(), Q=Q.tolist(), hessdiag=hd.tolist(),
                               exact=np.diag(exact).tolist())
                 break
+    # ---- real-step Hessians from very few user steps: with k steps the pass-through rule leaves k estimates to the Richardson stage, and the
+    # accuracy jumps by an order of h with every term it can use
+    worst_f = 0.0
+    for it in range(ctx.budget(60, 600)):
+        n = rng.randint(1, 6)
+        meth = rng.choice(['forward', 'backward', 'central', 'central2'])
+        x = np.array([rng.uniform(-1.5, 1.5) for _ in range(n)])
+        Q = np.array([[rng.randint(-8, 8) / 4 for _ in range(n)] for _ in range(n)])
+        Q = (Q + Q.T) / 2
+        g = np.array([rng.randint(-8, 8) / 4 for _ in range(n)])
+        a, b = np.array([rng.uniform(-1, 1) for _ in range(n)]), np.array([rng.uniform(-1, 1) for _ in range(n)])
+        f = lambda t: np.exp(np.dot(a, t)) + np.sin(np.dot(b, t)) + 0.5 * np.dot(t, Q @ t) + np.dot(a, t) * np.dot(b, t)
+        exact = np.exp(a @ x) * np.outer(a, a) - np.sin(b @ x) * np.outer(b, b) + Q + np.outer(a, b) + np.outer(b, a)
+        scale = 1 + np.abs(exact).max() + np.abs(g).max()
+        ns = rng.choice([2, 3, 3, 4, 5])
+        ctx.tried(('hessian-few-steps', n, meth, ns, tuple(x[:2])))
+        try:
+            with warnings.catch_warnings():
+                warnings.simplefilter('ignore')
+                H = nd.Hessian(f, method=meth, step=MinStepGenerator(base_step=0.01, step_ratio=2.0, num_steps=ns))(x)
+        except Exception as ex:
+            ctx.violation('Hessian with %d user steps raised %r' % (ns, ex), method=meth, n=n, x=x.tolist())
+            continue
+        e = float(np.max(np.abs(H - exact))) / scale
+        env = 20 * HESS_FEW_WORST[(meth, ns)]
+        worst_f = max(worst_f, e / env)
+        if not np.array_equal(H, H.T):
+            ctx.violation('Hessian is not exactly symmetric', method=meth, n=n, x=x.tolist(), num_steps=ns)
+        elif e > env:
+            ctx.violation('Hessian from %d user steps (0.01, ratio 2) is outside the accuracy envelope of (%s, %d steps)' % (ns, meth, ns),
+                          method=meth, n=n, x=x.tolist(), error_over_scale=e, envelope=env, a=a.tolist(), b=b.tolist(), Q=Q.tolist())
+    ctx.notes.append('real-step Hessians from 2..5 user steps: worst error / envelope = %.3g' % worst_f)
+    # the order of accuracy itself: halving the steps of a one-sided Hessian divides the error by 2^p, p = 1 + the number of Richardson
+    # terms the k steps allow (k = 2: p = 2, k = 3: p = 3); the median ratio over the cases is asserted (unchanged tree: 4.00 and 8.00,
+    # no single case below 2.4 resp. 5.7 in 1200), and the case with the smallest ratio is the replay
+    ratios = {2: [], 3: []}
+    for it in range(ctx.budget(40, 300)):
+        n = rng.randint(1, 5)
+        meth = rng.choice(['forward', 'backward'])
+        x = np.array([rng.uniform(-1.5, 1.5) for _ in range(n)])
+        Q = np.array([[rng.randint(-8, 8) / 4 for _ in range(n)] for _ in range(n)])
+        Q = (Q + Q.T) / 2
+        a, b = np.array([rng.uniform(-1, 1) for _ in range(n)]), np.array([rng.uniform(-1, 1) for _ in range(n)])
+        f = lambda t: np.exp(np.dot(a, t)) + np.sin(np.dot(b, t)) + 0.5 * np.dot(t, Q @ t) + np.dot(a, t) * np.dot(b, t)
+        exact = np.exp(a @ x) * np.outer(a, a) - np.sin(b @ x) * np.outer(b, b) + Q + np.outer(a, b) + np.outer(b, a)
+        ns = rng.choice([2, 3, 3])
+        errs = []
+        try:
+            with warnings.catch_warnings():
+                warnings.simplefilter('ignore')
+                for h0 in (0.04, 0.02):
+                    H = nd.Hessian(f, method=meth, step=MinStepGenerator(base_step=h0 / 2 ** (ns - 1), step_ratio=2.0, num_steps=ns))(x)
+                    errs.append(float(np.max(np.abs(H - exact))))
+        except Exception as ex:
+            ctx.violation('Hessian with %d user steps raised %r' % (ns, ex), method=meth, n=n, x=x.tolist())
+            continue
+        ctx.tried(('hessian-order', n, meth, ns, tuple(x[:2])))
+        if errs[0] > 1e-8 and errs[1] > 0:
+            ratios[ns].append((errs[0] / errs[1], dict(method=meth, n=n, x=x.tolist(), a=a.tolist(), b=b.tolist(), Q=Q.tolist(), errors=errs)))
+    for ns, want in ((2, 3.0), (3, 6.0)):
+        if len(ratios[ns]) >= 8:
+            rs = sorted(r for r, _ in ratios[ns])
+            med = rs[len(rs) // 2]
+            ctx.notes.append('one-sided Hessian from %d steps: median error ratio under step halving %.2f over %d cases (expected %d)' % (ns, med, len(rs), 2 ** ns))
+            if med < want:
+                ctx.violation('halving the steps of a forward / backward Hessian built from %d steps divides the error by a median factor %.2f only '
+                              '(order of accuracy %d expected: factor %d)' % (ns, med, ns, 2 ** ns), num_steps=ns,
+                              **min(ratios[ns], key=lambda t: t[0])[1])
     # ---- quadratics through Hessdiag with small user steps of ratio exactly 2 (every supported order is exact on a quadratic, so what
     # remains is rounding: eps |f| / h^2 and the accuracy of the rule's cancellation of the f' h term)
     worst_q = 0.0
